@@ -57,6 +57,7 @@ fn parse_schema_definition(
     let pos = pc.step(&pair);
     let mut pairs = pair.into_inner();
 
+    let description = parse_if_rule(&mut pairs, Rule::string, |pair| parse_string(pair, pc))?;
     let extend = next_if_rule(&mut pairs, Rule::extend).is_some();
     let directives = parse_opt_const_directives(&mut pairs, pc)?;
 
@@ -94,6 +95,7 @@ fn parse_schema_definition(
 
     Ok(Positioned::new(
         SchemaDefinition {
+            description,
             extend,
             directives,
             query,
